@@ -216,6 +216,34 @@ def build_TC11v(tree):
     out.append(scalar_def(ife.body, 'singlePositionSpacing', [], {},
                           'get_volume_positions: spacing stipulated for a single (unique) position without a hint'))
     spans.append(single)
+
+    # ---- option handling before any position is looked at: the first three statements, in this order
+    body = [s for s in fn.body if not (isinstance(s, ast.Expr) and isinstance(s.value, ast.Constant))]
+    if len(body) < 4 or not all(isinstance(s, ast.If) for s in body[:3]) or ast.unparse(body[3]) != 'image_positions_arr = np.array(image_positions)':
+        raise Unsupported('option handling: expected three if-statements before image_positions_arr = np.array(image_positions)')
+    flags, hint, tol = body[:3]
+    if ast.unparse(flags.test) != 'not sort' or flags.orelse:
+        raise Unsupported(f'option handling: first test is {ast.unparse(flags.test)}')
+    if ast.unparse(hint.test) != 'spacing_hint is not None' or hint.orelse:
+        raise Unsupported(f'option handling: second test is {ast.unparse(hint.test)}')
+    if ast.unparse(tol.test) != 'atol is not None and rtol is not None':
+        raise Unsupported(f'option handling: third test is {ast.unparse(tol.test)}')
+
+    def ret(text):
+        r = ast.parse(text).body[0]
+        ast.fix_missing_locations(r)
+        return r
+    out.append(translate_block([flags, ret('return 0')], 'optionFlags',
+                               [('sort', 'bool'), ('allow_duplicate_positions', 'bool'), ('allow_missing_positions', 'bool')], {},
+                               doc='get_volume_positions, option handling 1: sort=False cannot be combined with duplicates or gaps (0 = accepted)'))
+    out.append(translate_block(hint.body + [ret('return spacing_hint')], 'optionHint', [('spacing_hint', 'rat')], {},
+                               doc='get_volume_positions, option handling 2 (a hint is given): negative hints count by magnitude, zero is refused'))
+    rt_t, rt_node = _module_float(tree, '_DEFAULT_SPACING_RELATIVE_TOLERANCE')
+    out.append(translate_block([tol, ret('return (rtol, atol)')], 'optionTolerances', [('rtol', 'optrat'), ('atol', 'optrat')], {},
+                               consts={'_DEFAULT_SPACING_RELATIVE_TOLERANCE': ('rat', rt_t)},
+                               doc='get_volume_positions, option handling 3: rtol and atol exclude each other, one given alone zeroes the '
+                                   'other, none given means the default relative tolerance'))
+    spans += [flags, hint, tol, rt_node]
     return '\n\n'.join(out), span_sha(spans)
 
 
